@@ -686,5 +686,215 @@ func TestVerifExtfxstreamRandom(t *testing.T) {
 		}
 		r.run(c)
 	}
-	_ = sort.Ints
+}
+
+// ---- the workers of Walk / Map / Filter / Stream.Parallel / fx.Parallel ----------------------
+//
+// Every invocation of the user function logs "wstart", waits at a gate of its own, and logs
+// "wend" just before it returns.  The driver waits for the pipeline to be at rest (goroutine
+// snapshot), logs "quiet", opens the gate of one waiting invocation chosen by the schedule
+// (rank among the waiting items), and so on.  TLC validates against FxWalk.tla (FxWalkTrace).
+
+type verifExtfxstreamWCase struct {
+	N     int    `json:"n"`
+	W     int    `json:"w"` // 0 no option, -1 UnlimitedWorkers, -2 WithWorkers(0), -3 WithWorkers(-1), k WithWorkers(k)
+	Kind  string `json:"kind"`
+	Ranks []int  `json:"ranks"`
+}
+
+func verifExtfxstreamWOpts(w int) []Option {
+	if w == -3 {
+		return []Option{WithWorkers(-1)}
+	}
+	return verifExtfxstreamOpts(w)
+}
+
+func (r *verifExtfxstreamRunner) runWorkers(c verifExtfxstreamWCase, pick func(n int) int) {
+	em := r.em
+	leftover := map[int64]bool{}
+	ids, _ := verifExtfxstreamSnapshot(r.self, nil)
+	for _, id := range ids {
+		leftover[id] = true
+	}
+	em.Emit(verifEv{"e": "reset", "n": c.N, "w": c.W, "kind": c.Kind})
+	gates := make([]chan struct{}, c.N)
+	for i := range gates {
+		gates[i] = make(chan struct{})
+	}
+	var mu sync.Mutex
+	waiting := map[int]bool{}
+	enter := func(item any) int {
+		i := item.(int)
+		em.Emit(verifEv{"e": "wstart", "i": i})
+		mu.Lock()
+		waiting[i] = true
+		mu.Unlock()
+		<-gates[i]
+		return i
+	}
+	exit := func(i int) { em.Emit(verifEv{"e": "wend", "i": i}) }
+	items := make([]any, c.N)
+	for i := range items {
+		items[i] = i
+	}
+	source := func() Stream {
+		if c.N%2 == 0 {
+			return Just(items...)
+		}
+		return From(func(source chan<- any) {
+			for _, it := range items {
+				source <- it
+			}
+		})
+	}
+	opts := verifExtfxstreamWOpts(c.W)
+	done := make(chan struct{})
+	go func() {
+		defer close(done)
+		var out Stream
+		switch c.Kind {
+		case "walk":
+			out = source().Walk(func(item any, pipe chan<- any) {
+				i := enter(item)
+				pipe <- item
+				exit(i)
+			}, opts...)
+		case "map":
+			out = source().Map(func(item any) any {
+				i := enter(item)
+				exit(i)
+				return i + 100
+			}, opts...)
+		case "filter":
+			out = source().Filter(func(item any) bool {
+				i := enter(item)
+				exit(i)
+				return i%2 == 1
+			}, opts...)
+		case "parallel":
+			source().Parallel(func(item any) { exit(enter(item)) }, opts...)
+			em.Emit(verifEv{"e": "ret"})
+			return
+		case "fns":
+			fns := make([]func(), c.N)
+			for i := range fns {
+				i := i
+				fns[i] = func() { exit(enter(i)) }
+			}
+			Parallel(fns...)
+			em.Emit(verifEv{"e": "ret"})
+			return
+		default:
+			panic("verif: unknown kind " + c.Kind)
+		}
+		for item := range out.source {
+			v, ok := item.(int)
+			if !ok {
+				v = -999
+			}
+			em.Emit(verifEv{"e": "out", "v": v})
+		}
+		em.Emit(verifEv{"e": "close"})
+	}()
+	finished := func() bool {
+		select {
+		case <-done:
+			return true
+		default:
+			return false
+		}
+	}
+	for step := 0; ; step++ {
+		r.settle(leftover, nil)
+		em.Emit(verifEv{"e": "quiet"})
+		mu.Lock()
+		var w []int
+		for i := range waiting {
+			w = append(w, i)
+		}
+		mu.Unlock()
+		if len(w) == 0 {
+			break
+		}
+		sort.Ints(w)
+		cnt := 1
+		if pick != nil && step >= len(c.Ranks) && len(w) > 1 && pick(3) == 0 {
+			cnt = 1 + pick(len(w)) // several gates opened before the next snapshot
+		}
+		for ; cnt > 0; cnt-- {
+			k := 0
+			if step < len(c.Ranks) {
+				k = c.Ranks[step] % len(w)
+			} else if pick != nil {
+				k = pick(len(w))
+			}
+			i := w[k]
+			w = append(w[:k], w[k+1:]...)
+			mu.Lock()
+			delete(waiting, i)
+			mu.Unlock()
+			em.Emit(verifEv{"e": "rel", "i": i})
+			close(gates[i])
+		}
+	}
+	var left []int64
+	if finished() {
+		left = r.settle(leftover, func() bool {
+			ids, _ := verifExtfxstreamSnapshot(r.self, leftover)
+			return len(ids) == 0
+		})
+	} else { // at rest, nobody waits at a gate, and the call is not over
+		left = r.settle(leftover, nil)
+	}
+	em.Emit(verifEv{"e": "end", "leaked": len(left)})
+}
+
+func TestVerifExtfxstreamWorkersReplay(t *testing.T) {
+	logx.Disable()
+	em := verifOpen(t)
+	defer em.Close()
+	r := &verifExtfxstreamRunner{t: t, em: em, self: verifExtfxstreamGid()}
+	for _, raw := range verifInput(t) {
+		var c verifExtfxstreamWCase
+		if err := json.Unmarshal(raw, &c); err != nil {
+			t.Fatal(err)
+		}
+		r.runWorkers(c, nil)
+	}
+}
+
+func TestVerifExtfxstreamWorkersRandom(t *testing.T) {
+	logx.Disable()
+	em := verifOpen(t)
+	defer em.Close()
+	r := &verifExtfxstreamRunner{t: t, em: em, self: verifExtfxstreamGid()}
+	rnd := verifRand(506)
+	cases := verifEnvInt("VERIF_EXTFX_WCASES", 150)
+	kinds := []string{"walk", "map", "filter", "parallel", "fns"}
+	// around defaultWorkers = 16, every kind: more items than the default cap with no option,
+	// with UnlimitedWorkers and with a cap just above / at the default
+	for _, kind := range kinds {
+		for _, nw := range [][2]int{{18, 0}, {18, -1}, {18, 17}, {17, 16}} {
+			r.runWorkers(verifExtfxstreamWCase{N: nw[0], W: nw[1], Kind: kind}, rnd.Intn)
+		}
+	}
+	for n := 0; n < cases; n++ {
+		c := verifExtfxstreamWCase{Kind: kinds[rnd.Intn(len(kinds))]}
+		switch rnd.Intn(4) {
+		case 0:
+			c.N = rnd.Intn(4)
+		case 1:
+			c.N = 15 + rnd.Intn(6) // around defaultWorkers
+		default:
+			c.N = rnd.Intn(12)
+		}
+		c.W = []int{0, 0, -1, -2, -3, 1, 1, 2, 3, 5, 16, 17}[rnd.Intn(12)]
+		if rnd.Intn(3) == 0 && c.N > 0 { // the cap exactly at / next to the number of items
+			c.W = c.N + rnd.Intn(3) - 1
+			if c.W < 1 {
+				c.W = 1
+			}
+		}
+		r.runWorkers(c, rnd.Intn)
+	}
 }
